@@ -205,23 +205,32 @@ open ScyllaVerif.Proofs.Plan in
 private theorem WF_withDown {cl : Cluster} (hwf : WF cl) (d : List Nat) : WF (withDown cl d) :=
   ⟨hwf.locator, hwf.ntsKeys, hwf.distinctIds⟩
 
-/-- Every target of the two-snapshot plan is the picked one or a target of the (second-snapshot) fallback; no node is
-named more than once among the targets after the first. -/
+/-- When `pick()` answers nothing, `fallback()` runs inside the same first `next()`: the plan is the one-snapshot plan. -/
+theorem plan2_of_pick_none (cl : Cluster) (down₂ : List Nat) (cfg : Config) (rq : Request) (ρp : RhoPick) (ρf : RhoFb)
+    (h : pick cl cfg rq ρp = none) : plan2 cl down₂ cfg rq ρp ρf = plan cl cfg rq ρp ρf := by
+  unfold plan2 plan; rw [h]
+
+/-- Every target of the two-snapshot plan is the picked one or a target of the second-snapshot fallback (of the
+first-snapshot fallback when `pick()` answered nothing); no node is named more than once among the targets after the
+first. -/
 theorem plan2_structure (cl : Cluster) (down₂ : List Nat) (cfg : Config) (rq : Request) (ρp : RhoPick) (ρf : RhoFb) :
-    (∀ u ∈ plan2 cl down₂ cfg rq ρp ρf, pick cl cfg rq ρp = some u ∨ u ∈ fallback (withDown cl down₂) cfg rq ρf) ∧
+    (∀ u ∈ plan2 cl down₂ cfg rq ρp ρf, pick cl cfg rq ρp = some u ∨ u ∈ fallback (withDown cl down₂) cfg rq ρf ∨
+        (pick cl cfg rq ρp = none ∧ u ∈ fallback cl cfg rq ρf)) ∧
       (((plan2 cl down₂ cfg rq ρp ρf).drop 1).map (·.1.id)).Nodup := by
   have hn := fallback_nodup (withDown cl down₂) cfg rq ρf
+  have hn1 := fallback_nodup cl cfg rq ρf
   unfold plan2
   cases hpk : pick cl cfg rq ρp with
   | none =>
-    rw [ScyllaVerif.Proofs.Plan.planOf_none hn]
-    exact ⟨fun u hu => Or.inr hu, hn.sublist ((List.drop_sublist 1 _).map _)⟩
+    simp only []
+    rw [ScyllaVerif.Proofs.Plan.planOf_none hn1]
+    exact ⟨fun u hu => Or.inr (Or.inr ⟨trivial, hu⟩), hn1.sublist ((List.drop_sublist 1 _).map _)⟩
   | some t =>
     simp only [planOf, List.mem_cons, List.drop_succ_cons, List.drop_zero]
     refine ⟨?_, hn.sublist (List.filter_sublist.map _)⟩
     rintro u (rfl | hu)
     · exact Or.inl rfl
-    · exact Or.inr (List.mem_filter.mp hu).1
+    · exact Or.inr (Or.inl (List.mem_filter.mp hu).1)
 
 /-- **Still true under changing liveness**: no disabled node, datacenter confinement, and every enabled token-owning
 permitted node occurs. -/
@@ -231,22 +240,30 @@ theorem plan2_exclusion_completeness {cl : Cluster} (hwf : WF cl) (down₂ : Lis
         (cfg.failover = false → ∀ d, (preference cfg rq).datacenter = some d → u.1.dc = some d)) ∧
       (∀ n ∈ allNodes cl, n.id ∉ cl.disabled → Permitted cfg rq n → ∃ u ∈ plan2 cl down₂ cfg rq ρp ρf, u.1 = n) := by
   have hwf2 := WF_withDown hwf down₂
-  constructor
-  · intro u hu
-    rcases (plan2_structure cl down₂ cfg rq ρp ρf).1 u hu with hp | hf
-    · have hm := (plan_mem_iff hwf cfg rq ρp ρf u).mpr ((pick_spec hwf cfg rq ρp ρf hp).1)
-      exact ⟨plan_excludes_disabled hwf cfg rq ρp ρf u hm,
-        fun hfo d hd => plan_stays_in_dc hwf cfg rq ρp ρf hfo hd u hm⟩
-    · have hm := (plan_mem_iff hwf2 cfg rq ρp ρf u).mpr hf
-      exact ⟨plan_excludes_disabled hwf2 cfg rq ρp ρf u hm,
-        fun hfo d hd => plan_stays_in_dc hwf2 cfg rq ρp ρf hfo hd u hm⟩
-  · intro n hn he hperm
-    obtain ⟨u, hu, hun⟩ := plan_complete hwf2 cfg rq ρp ρf (n := n) hn he hperm
-    have huf := (plan_mem_iff hwf2 cfg rq ρp ρf u).mp hu
-    unfold plan2
-    cases hpk : pick cl cfg rq ρp with
-    | none => rw [ScyllaVerif.Proofs.Plan.planOf_none (fallback_nodup _ cfg rq ρf)]; exact ⟨u, huf, hun⟩
-    | some t =>
+  cases hpk : pick cl cfg rq ρp with
+  | none =>
+    rw [plan2_of_pick_none cl down₂ cfg rq ρp ρf hpk]
+    exact ⟨fun u hu => ⟨plan_excludes_disabled hwf cfg rq ρp ρf u hu,
+        fun hfo d hd => plan_stays_in_dc hwf cfg rq ρp ρf hfo hd u hu⟩,
+      fun n hn he hperm => plan_complete hwf cfg rq ρp ρf hn he hperm⟩
+  | some t =>
+    have hplan : plan2 cl down₂ cfg rq ρp ρf = planOf (some t) (fallback (withDown cl down₂) cfg rq ρf) := by
+      unfold plan2; rw [hpk]
+    constructor
+    · intro u hu
+      rw [hplan] at hu
+      simp only [planOf, List.mem_cons] at hu
+      rcases hu with rfl | hf
+      · have hm := (plan_mem_iff hwf cfg rq ρp ρf u).mpr ((pick_spec hwf cfg rq ρp ρf hpk).1)
+        exact ⟨plan_excludes_disabled hwf cfg rq ρp ρf u hm,
+          fun hfo d hd => plan_stays_in_dc hwf cfg rq ρp ρf hfo hd u hm⟩
+      · have hm := (plan_mem_iff hwf2 cfg rq ρp ρf u).mpr (List.mem_filter.mp hf).1
+        exact ⟨plan_excludes_disabled hwf2 cfg rq ρp ρf u hm,
+          fun hfo d hd => plan_stays_in_dc hwf2 cfg rq ρp ρf hfo hd u hm⟩
+    · intro n hn he hperm
+      obtain ⟨u, hu, hun⟩ := plan_complete hwf2 cfg rq ρp ρf (n := n) hn he hperm
+      have huf := (plan_mem_iff hwf2 cfg rq ρp ρf u).mp hu
+      rw [hplan]
       simp only [planOf, List.mem_cons, List.mem_filter]
       cases hl : litEq u t with
       | false => exact ⟨u, Or.inr ⟨huf, by simp [hl]⟩, hun⟩
@@ -274,11 +291,11 @@ theorem plan2_nodup_of_stable_pick {cl : Cluster} (hwf : WF cl) (down₂ : List 
     ((plan2 cl down₂ cfg rq ρp ρf).map (·.1.id)).Nodup := by
   have hwf2 := WF_withDown hwf down₂
   have hn := fallback_nodup (withDown cl down₂) cfg rq ρf
-  unfold plan2
   cases hpk : pick cl cfg rq ρp with
-  | none => rw [ScyllaVerif.Proofs.Plan.planOf_none hn]; exact hn
+  | none => rw [plan2_of_pick_none cl down₂ cfg rq ρp ρf hpk]; exact plan_nodup hwf cfg rq ρp ρf
   | some t =>
-    simp only [planOf, List.map_cons, List.nodup_cons]
+    unfold plan2
+    simp only [hpk, planOf, List.map_cons, List.nodup_cons]
     refine ⟨?_, hn.sublist (List.filter_sublist.map _)⟩
     intro hc
     obtain ⟨v, hv, hid⟩ := List.mem_map.mp hc
